@@ -57,10 +57,10 @@ METHODS = {"ptw": _ptw,
 
 def build(repo):
     """Returns the list of Defs."""
-    sd = T.Source(os.path.join(repo, "nifty/re/num/stats_distributions.py"))
-    ut = T.Source(os.path.join(repo, "nifty/cl/utilities.py"))
-    no = T.Source(os.path.join(repo, "nifty/cl/operators/normal_operators.py"))
-    sp = T.Source(os.path.join(repo, "nifty/cl/library/special_distributions.py"))
+    sd = T.Source(os.path.join(repo, "nifty/re/num/stats_distributions.py"), repo)
+    ut = T.Source(os.path.join(repo, "nifty/cl/utilities.py"), repo)
+    no = T.Source(os.path.join(repo, "nifty/cl/operators/normal_operators.py"), repo)
+    sp = T.Source(os.path.join(repo, "nifty/cl/library/special_distributions.py"), repo)
     defs = []
 
     # ---------------- JAX: nifty/re/num/stats_distributions.py -----------------------------------
